@@ -16,6 +16,8 @@ namespace embedded_pairing::bls12_381 {
     template void G1::multiply<G1>(const G1&, const core::BigInt<128>&);
     template void G2::multiply<G2Affine>(const G2Affine&, const core::BigInt<512>&);
     template void G2::multiply<G2>(const G2&, const core::BigInt<512>&);
+    template void Affine<Fq, Fr, g1_b_coeff_var>::negate(const Affine<Fq, Fr, g1_b_coeff_var>&);
+    template void Affine<Fq2, Fr, g2_b_coeff_var>::negate(const Affine<Fq2, Fr, g2_b_coeff_var>&);
     template void Projective<Fq>::multiply_doubleadd<G1Affine, core::BigInt<256> >(const G1Affine&, const core::BigInt<256>&, int);
     template void Projective<Fq>::multiply_doubleadd<Projective<Fq>, core::BigInt<256> >(const Projective<Fq>&, const core::BigInt<256>&, int);
     template void Projective<Fq2>::multiply_doubleadd<G2Affine, core::BigInt<256> >(const G2Affine&, const core::BigInt<256>&, int);
